@@ -731,3 +731,4 @@ MANIFEST = {
 }
 MANIFEST["text"] += " radon_torch's disc mask is reduced to the relation of the KEPT region (multiply by mask / masked_fill / where) and compared with the reference's `dist > radius²` outside test (closed disc)."
 MANIFEST["text"] += ' R8: forward taint of the projection angles from `theta` through locals and module helpers up to the trigonometric calls — no modular reduction, clamping, rounding or re-ordering on the way.'
+MANIFEST["text"] += ' R9 (coupled): the transform length of the filtering step is the padded size — explicit padding, or `n=f_filter.shape[k]` with k the axis on which the filter returns its samples.'
